@@ -469,3 +469,42 @@ class Server:
 
 
 os.makedirs(os.path.join(BUILD_ROOT, "run"), exist_ok=True)
+
+
+def diagnose(srv, tls=False, wait=8.0):
+    """after a harness time-out: is it the server? -> 'dead' (process gone), 'hung' (process alive, a fresh connection
+    gets no answer for `wait` seconds although the harness itself is scheduled promptly), 'responsive', or 'unknown'
+    (the harness was not scheduled promptly: nothing can be said)"""
+    import threading
+    from . import wire
+    if not srv.alive():
+        return "dead"
+    lag = [0.0]
+    stop = []
+
+    def beat():
+        last = time.monotonic()
+        while not stop:
+            time.sleep(0.05)
+            now = time.monotonic()
+            lag[0] = max(lag[0], now - last - 0.05)
+            last = now
+    t = threading.Thread(target=beat, daemon=True)
+    t.start()
+    ok = False
+    try:
+        c = wire.Client(srv.port, tls=tls, timeout=wait)
+        # a registration needs the state lock: a server whose lock is stuck answers unregistered PINGs but nothing else
+        c.send("NICK dg%d%d" % (os.getpid() % 10000, int(time.time() * 10) % 100000))
+        c.send("USER diagnose 0 * :d")
+        c.read_until(lambda m: m.verb in ("001", "464", "433") or m.verb.startswith("ERROR"), wait)
+        c.close()
+        ok = True
+    except (wire.Closed, wire.Timeout, OSError):
+        ok = False
+    stop.append(1)
+    if ok:
+        return "responsive"
+    if not srv.alive():
+        return "dead"
+    return "hung" if lag[0] < 1.0 else "unknown"
